@@ -126,13 +126,17 @@ func (e *Exec) trySpeculate(fr *frame, ins *ssa.If, c *Term) (ok bool) {
 	B := ins.Block()
 	pd := e.prog.postDominators(fr.fn)
 	j := pd[B.Index]
-	if j < 0 {
+	var J *ssa.BasicBlock
+	if j >= 0 {
+		J = fr.fn.Blocks[j]
+	} else if len(fr.defers) > 0 || fr.caller == nil {
+		// no join before the function exit: only frames without pending defers can be merged through
+		// their returns (and never the harness entry itself)
 		if e.spec > 0 {
 			e.abortSpec("no join")
 		}
 		return false
 	}
-	J := fr.fn.Blocks[j]
 	// collect the region
 	inRegion := map[*ssa.BasicBlock]bool{}
 	var orderRev []*ssa.BasicBlock
@@ -176,11 +180,8 @@ func (e *Exec) trySpeculate(fr *frame, ins *ssa.If, c *Term) (ok bool) {
 	}
 	for b := range inRegion {
 		if len(b.Succs) == 0 {
-			return fail("region exits function")
-		}
-		for _, p := range b.Preds {
-			if p != B && !inRegion[p] {
-				return fail("side entry")
+			if _, isRet := b.Instrs[len(b.Instrs)-1].(*ssa.Return); !isRet || J != nil {
+				return fail("region exits function")
 			}
 		}
 	}
@@ -189,15 +190,20 @@ func (e *Exec) trySpeculate(fr *frame, ins *ssa.If, c *Term) (ok bool) {
 	savedPrev, savedBlock := fr.prev, fr.block
 	outer := e.spec == 0
 	if outer {
-		e.specStart = e.locID
-		e.specObjStart = e.objID
 		e.specSteps = 0
 	}
+	// memory created before THIS region started must not be written by its arms (both arms are
+	// evaluated, so such a write would not be guarded); nested regions are stricter than outer ones.
+	savedStart, savedObjStart := e.specStart, e.specObjStart
+	e.specStart = e.locID
+	e.specObjStart = e.objID
 	e.spec++
 	defer func() {
 		e.spec--
+		e.specStart, e.specObjStart = savedStart, savedObjStart
 		if r := recover(); r != nil {
-			if _, isAbort := r.(specAbort); isAbort && outer {
+			if sa, isAbort := r.(specAbort); isAbort && outer {
+				e.prog.noteFork("spec-abort: " + sa.why + " @ " + e.prog.fset.Position(e.lastPos).String())
 				e.curFrame = savedFrame
 				fr.prev, fr.block = savedPrev, savedBlock
 				ok = false
@@ -207,6 +213,11 @@ func (e *Exec) trySpeculate(fr *frame, ins *ssa.If, c *Term) (ok bool) {
 			panic(r)
 		}
 	}()
+	type retCase struct {
+		g *Term
+		v Value
+	}
+	var rets []retCase
 	type edge struct{ from, to *ssa.BasicBlock }
 	edgeGuard := map[edge]*Term{}
 	addEdge := func(from, to *ssa.BasicBlock, g *Term) {
@@ -267,7 +278,24 @@ func (e *Exec) trySpeculate(fr *frame, ins *ssa.If, c *Term) (ok bool) {
 				ct := e.get(fr, t.Cond).(*Term)
 				addEdge(X, X.Succs[0], e.ts.And(guard, ct))
 				addEdge(X, X.Succs[1], e.ts.And(guard, e.ts.Not(ct)))
-			case *ssa.Return, *ssa.Panic, *ssa.Defer, *ssa.RunDefers, *ssa.Go, *ssa.Send, *ssa.MapUpdate, *ssa.Select:
+			case *ssa.Return:
+				if J != nil {
+					e.abortSpec("return inside a joined region")
+				}
+				var rv Value
+				switch len(t.Results) {
+				case 0:
+				case 1:
+					rv = copyVal(e.get(fr, t.Results[0]))
+				default:
+					tu := make(Tuple, len(t.Results))
+					for i, r := range t.Results {
+						tu[i] = copyVal(e.get(fr, r))
+					}
+					rv = tu
+				}
+				rets = append(rets, retCase{guard, rv})
+			case *ssa.Panic, *ssa.Defer, *ssa.RunDefers, *ssa.Go, *ssa.Send, *ssa.MapUpdate, *ssa.Select:
 				e.abortSpec("side effect in region")
 			default:
 				e.specSteps++
@@ -279,6 +307,33 @@ func (e *Exec) trySpeculate(fr *frame, ins *ssa.If, c *Term) (ok bool) {
 				e.curFrame = fr
 			}
 		}
+	}
+	if J == nil {
+		if len(rets) == 0 {
+			e.abortSpec("no return in exit region")
+		}
+		var res Value
+		for i, rc := range rets {
+			if i == 0 {
+				res = rc.v
+				continue
+			}
+			if rc.v == nil && res == nil {
+				continue
+			}
+			m, mok := e.merge(rc.g, rc.v, res)
+			if !mok {
+				e.abortSpec("return values not mergeable")
+			}
+			res = m
+		}
+		fr.result = res
+		fr.specReturned = true
+		fr.prev, fr.block = savedPrev, savedBlock
+		if outer {
+			e.prog.stats.addSpec(true)
+		}
+		return true
 	}
 	evalPhis(J)
 	fr.prev, fr.block = B, J
